@@ -1,5 +1,6 @@
 import GitBugModel.Model.Conn
 import GitBugModel.Gen.Conn
+import GitBugModel.Lemmas.Cursor
 /-!
 # C20 — API pagination visits every element exactly once, in order
 
@@ -498,6 +499,29 @@ theorem hasPrev_truthful {α} {enc : Nat → String} (hinj : Function.Injective 
 of `walk_forward` is necessary).  Concrete witness, checked by evaluation. -/
 theorem walk_forward_zero_stalls :
     walkForward (fun i => toString i) [1, 2, 3] 0 5 none = none := by decide
+
+
+/-! ## the encoder of the source: `OffsetToCursor` = base64("cursor:" ++ decimal offset) -/
+
+/-- `goEnc_injective`: the cursor the resolvers give to offset `i` (`connections.OffsetToCursor`,
+modelled in `Model/Cursor.lean`: decimal rendering, prefix, standard base-64 with padding) is
+different for different offsets.  This discharges the injectivity hypothesis of the walk and
+flag theorems for the encoder actually used. -/
+theorem goEnc_injective : Function.Injective GitBugModel.Cursor.offsetToCursor :=
+  GitBugModel.Cursor.offsetToCursor_injective
+
+/-- forward walk with the source's own cursor encoder: no hypothesis left but a positive page size -/
+theorem walk_forward_go {α} (src : List α) {k : Nat} (hk : 0 < k) :
+    walkForward GitBugModel.Cursor.offsetToCursor src k (src.length + 1) none = some src :=
+  walk_forward goEnc_injective src hk
+
+theorem walk_backward_go {α} (src : List α) {k : Nat} (hk : 0 < k) :
+    walkBackward GitBugModel.Cursor.offsetToCursor src k (src.length + 1) none = some src :=
+  walk_backward goEnc_injective src hk
+
+example : GitBugModel.Cursor.offsetToCursor 0 = "Y3Vyc29yOjA=" := by decide
+example : GitBugModel.Cursor.offsetToCursor 12 = "Y3Vyc29yOjEy" := by decide
+example : GitBugModel.Cursor.offsetToCursor 123 = "Y3Vyc29yOjEyMw==" := by decide
 
 /-! ## regenerated obligation: every genny instance in the source is the template the model transcribes -/
 
